@@ -557,6 +557,9 @@ func (c tupleCodec) Transform(t Tuple) ([]byte, []byte) {
 		b = append(b, s...)
 		b = append(b, 0)
 	}
+	if len(b)%2 == 1 {
+		return clone(b), b // equal content in two distinct slices: a codec need not return one slice twice
+	}
 	return b, b
 }
 
